@@ -2,6 +2,8 @@ import AtreeProofs.Codec.RoundTrip
 import AtreeProofs.Codec.HeadG
 import AtreeProofs.Codec.RoundTripD
 import AtreeProofs.Codec.RoundTripW
+import AtreeProofs.Codec.CmpSlab
+import AtreeProofs.Codec.CmpFix
 /-
   C07 — Slab encoding is canonical, self-describing and round-trips exactly.
   PROPERTY THEOREMS about the byte-level model (`AtreeModel/Codec`).
@@ -302,21 +304,131 @@ theorem decode_encode_inlined_extra_data (xs : List XD) (hx : XOK xs) (hne : xs 
       = .ok (xs, rest) (n + (findDuplicateTypeInfo xs).length + xs.length) :=
   newInlinedExtraDataFromData_enc xs hx hne hlen rest n
 
-/-- PARTIAL with respect to the property text: the two theorems above cover every slab with inlined
-    arrays / maps EXCEPT those in which some inlined map is written in the COMPACT form (tag 252,
-    `compactMapExtraData`: same-typed composite maps sharing hoisted keys and digests).  For those
-    the property allows the decoded children to adopt the shared seed and key order; the model
-    implements exactly that (`decInlCMap`, `encFind`) and the `codec` stream compares, for every
-    compact-encoded slab of every history, the model's bytes with `EncodeSlab`'s, the model's decoded
-    form with `DecodeSlab`'s, and checks in Go that content is preserved up to seed and order and that
-    re-encoding the decoded slab gives the register back — but there is no Lean theorem for the
-    compact form beyond the length law `C06.enc_len_*_compact`.  Stated here so that the gap is
-    visible in the theorem list: both non-compact round trips, as one statement. -/
+/-- Both non-compact round trips, as one statement.  (Historical name: this conjunction marked the
+    gap "no Lean theorem for the COMPACT form of inlined maps" while that was open.  The gap is closed
+    by `decode_encode_mdata_compact` / `decode_encode_adata_compact` below, which subsume this
+    statement — `normMEls_noCompact` / `normSts_noCompact` — and whose result for compact maps is the
+    documented exception: shared seed, digests and key order.) -/
 theorem decode_encode_inlined_partial :
     (∀ (s : MapData), MapDataOKI s → ∀ n, decodeSlab s.id (encodeMapData s) n
         = .ok (.mdata s) (n + iedAllocs (encMEls s.els []).2 + s.els.allocsI)) ∧
     (∀ (a : ArrData), ArrDataOKI a → ∀ n, decodeSlab a.id (encodeArrData a) n
         = .ok (.adata a) (n + iedAllocs (encSts a.elems []).2 + a.elems.length + allocsISts a.elems)) :=
   ⟨decode_encode_mdata_inlined, decode_encode_adata_inlined⟩
+
+/-! ### the compact form of inlined maps (tag 252) — the documented exception
+
+  An inlined map of a composite type whose elements are all single elements with plain keys is
+  written as `[extra-data index, slab index, [values …]]`.  Keys, digests, count, seed and type info
+  live in ONE extra-data entry per (type, key set), created by the first such map the encoder meets
+  (`addCompactXD`); later maps of the group write their values in the FIRST map's key order
+  (`encFind`).  `DecodeSlab` therefore does not give the encoded value back: every map of a group
+  comes back with the first map's key order, digests and seed (the count and the type are equal
+  anyway), and with level 0.  `normSt s xs` (Codec/CmpDefs.lean) is that decoded value as a function
+  of the value `s` and the encoder's extra-data state `xs` before `s`; `normSts` / `normMEls` thread
+  the state through element lists.  Without compact maps it is the identity (`norm_id_of_noCompact`);
+  it never changes sizes (`decoded_size_eq_compact`); `compact_child_shape` says what a compact child
+  looks like after decoding.
+
+  `MapDataOKC` / `ArrDataOKC`: `MapDataOKI` / `ArrDataOKI` with `nodupKeys` (the keys of every
+  compact-eligible map are distinct — the library's maps have distinct keys) instead of `noCompact`.
+  So these two theorems cover EVERY shape of inlined child, at any depth, in any mixture. -/
+
+/-- Decoding the encoding of a map data / collision-group slab whose elements contain inlined slabs
+    in any form (inlined arrays, inlined maps, compact maps) gives the slab with its elements as
+    `normMEls` describes them; allocation count exact. -/
+theorem decode_encode_mdata_compact (s : MapData) (ok : MapDataOKC s) (n : Nat) :
+    decodeSlab s.id (encodeMapData s) n
+      = .ok (.mdata { s with els := normMEls s.els [] })
+          (n + iedAllocsC (encMEls s.els []).2 + (normMEls s.els []).allocsI) := by
+  have := decodeSlab_encodeMapDataC s ok [] n
+  simpa using this
+
+/-- The same for an array data slab. -/
+theorem decode_encode_adata_compact (a : ArrData) (ok : ArrDataOKC a) (n : Nat) :
+    decodeSlab a.id (encodeArrData a) n
+      = .ok (.adata { a with elems := normSts a.elems [] })
+          (n + iedAllocsC (encSts a.elems []).2 + a.elems.length + allocsISts (normSts a.elems [])) := by
+  have := decodeSlab_encodeArrDataC a ok [] n
+  simpa using this
+
+/-- … and followed by extra bytes it is rejected. -/
+theorem decode_rejects_trailing_adata_compact (a : ArrData) (ok : ArrDataOKC a) (extra : Bytes)
+    (hex : extra ≠ []) (n : Nat) :
+    decodeSlab a.id (encodeArrData a ++ extra) n
+      = .error .decoding (n + iedAllocsC (encSts a.elems []).2 + a.elems.length + allocsISts (normSts a.elems [])) := by
+  rw [decodeSlab_encodeArrDataC a ok extra n, if_pos hex]
+
+/-- Without compact maps the decoded value is the encoded value (so the two theorems above contain
+    `decode_encode_mdata_inlined` / `decode_encode_adata_inlined`). -/
+theorem norm_id_of_noCompact :
+    (∀ (els : MEls) (xs : List XD), els.noCompact → normMEls els xs = els) ∧
+    (∀ (l : List Stor) (xs : List XD), noCompactSts l → normSts l xs = l) :=
+  ⟨normMEls_noCompact, normSts_noCompact⟩
+
+/-- Decoding never changes sizes: the decoded elements have the byte sizes of the encoded ones (so
+    the slab's computed size, its split / merge decisions and its header size fields are unaffected
+    by the exception). -/
+theorem decoded_size_eq_compact :
+    (∀ (els : MEls) (xs : List XD), els.nodupKeys → (normMEls els xs).size = els.size) ∧
+    (∀ (l : List Stor) (xs : List XD), nodupKeysSts l → sizeSts (normSts l xs) = sizeSts l) :=
+  ⟨size_normMEls, sizeSts_norm⟩
+
+/-- What a compact child looks like after decoding: the slab index is its own; type and count are its
+    own; seed and digests are those of the shared entry (`x'`, `hk'`); the elements are single
+    elements, one per cached key — a permutation of its own keys — each holding the decoded form of
+    the value it stored under that key; the level is 0. -/
+theorem compact_child_shape (x : MapExtra) (idx level : Nat) (hkeys : List Nat) (elems : List MEl)
+    (keys : List (Nat × Nat)) (xs : List XD) (hx : XOKC xs) (h : (Stor.map x idx (.hkey level hkeys elems)).RTI)
+    (hc : compactKeys x elems = some keys) :
+    ∃ (x' : MapExtra) (hk' : List Nat) (cached : List (Nat × Nat)) (st : List XD),
+      normSt (.map x idx (.hkey level hkeys elems)) xs = .map x' idx (.hkey 0 hk' (normVals elems cached st)) ∧
+      cached.Perm keys ∧ x'.ty = x.ty ∧ x'.count = x.count ∧ hk'.length = cached.length := by
+  have hv := cmap_validC h.1 h.2.2.1 hc
+  obtain ⟨_, hxa, x', hk', hget⟩ := addCompactXD_specC xs x hkeys keys hx hv
+  have hperm := addCompactXD_perm xs x hkeys keys
+  have hent : (XD.cmap x' hk' (addCompactXD xs x hkeys keys).2.1).validC := hxa _ (List.mem_of_getElem? hget)
+  refine ⟨x', hk', (addCompactXD xs x hkeys keys).2.1, (addCompactXD xs x hkeys keys).2.2, ?_, hperm,
+    addCompactXD_entry_ty xs x hkeys keys hx hv hget, ?_, hent.2.1⟩
+  · simp only [normSt, hc, foldl_normFind_eq, List.nil_append, hget]
+  · have h1 := hent.2.2.2.2.2.2
+    have h2 := hv.2.2.2.2.2.2
+    have := hperm.length_eq
+    omega
+
+/-- The shared inlined-extra-data section with compact-map entries round-trips. -/
+theorem decode_encode_inlined_extra_data_compact (xs : List XD) (hx : XOKC xs) (hne : xs ≠ [])
+    (hlen : xs.length ≤ 256) (rest : Bytes) (n : Nat) :
+    newInlinedExtraDataFromData (encodeIED xs ++ rest) n
+      = .ok (xs, rest) (n + (findDuplicateTypeInfo xs).length + xs.length + (xs.map xdAllocs).sum) :=
+  newInlinedExtraDataFromData_encC xs hx hne hlen rest n
+
+/-- Re-encoding whatever the decoder returns for the register of a slab with inlined children in any
+    form, compact maps included, yields the identical byte string: although a decoded compact child
+    differs from the encoded one (seed, digests, key order, level), it encodes to the same bytes and
+    asks for the same shared extra-data entries in the same order. -/
+theorem reencode_fixpoint_mdata_compact (s : MapData) (ok : MapDataOKC s) (n : Nat) (s' : Slab) (k : Nat)
+    (h : decodeSlab s.id (encodeMapData s) n = .ok s' k) : encodeSlab s' = encodeMapData s := by
+  rw [decode_encode_mdata_compact s ok n] at h
+  cases h
+  exact encodeMapData_norm s ok
+
+theorem reencode_fixpoint_adata_compact (a : ArrData) (ok : ArrDataOKC a) (n : Nat) (s' : Slab) (k : Nat)
+    (h : decodeSlab a.id (encodeArrData a) n = .ok s' k) : encodeSlab s' = encodeArrData a := by
+  rw [decode_encode_adata_compact a ok n] at h
+  cases h
+  exact encodeArrData_norm a ok
+
+/-- The element level of the same fact: the decoded form of a storable encodes, from the same
+    extra-data state, to the same bytes and leaves the same state. -/
+theorem reencode_decoded_storable (s : Stor) (xs : List XD) (h : s.RTI) (nd : s.nodupKeys) (hx : XOKC xs) :
+    encSt (normSt s xs) xs = encSt s xs :=
+  encSt_norm s xs h nd hx
+
+/-- The has-pointers flag of the decoded elements is that of the encoded ones. -/
+theorem decoded_hasPtr_eq_compact :
+    (∀ (els : MEls) (xs : List XD), els.nodupKeys → (normMEls els xs).hasPtr = els.hasPtr) ∧
+    (∀ (l : List Stor) (xs : List XD), nodupKeysSts l → anyPtrSts (normSts l xs) = anyPtrSts l) :=
+  ⟨hasPtr_normMEls, anyPtrSts_norm⟩
 
 end Atree.C07
